@@ -302,6 +302,12 @@ func (a *Adversary) sendOnce(tmpl string, mi int, msg *gpbft.GMessage, dests []i
 	// the adversary also learns its own signatures
 	a.learn(msg)
 	a.w.Inject(mi, msg, ds, delay)
+	if tmpl == "S3-misplace" {
+		// a rule-violating message is presented a second time (validators must not remember a
+		// message they refused as one they accepted)
+		a.PerTemplate["S3-misplace-second-presentation"]++
+		a.w.Inject(mi, msg, ds, delay+a.w.delta()/4+1)
+	}
 }
 
 func (a *Adversary) learn(msg *gpbft.GMessage) {
@@ -318,7 +324,7 @@ func (a *Adversary) learn(msg *gpbft.GMessage) {
 func (a *Adversary) mutate(mi int, msg *gpbft.GMessage) *gpbft.GMessage {
 	p := msg.Vote
 	j := msg.Justification
-	switch a.rng.Intn(7) {
+	switch a.rng.Intn(8) {
 	case 0:
 		p.Round++
 	case 1:
@@ -352,6 +358,15 @@ func (a *Adversary) mutate(mi int, msg *gpbft.GMessage) *gpbft.GMessage {
 		}
 	case 6:
 		p.Instance++
+	case 7:
+		// a DECIDE for a chain nobody proposed, carrying whatever aggregate is at hand
+		if f := a.foreignChain(p.Instance, false); f != nil {
+			p.Value, p.Phase, p.Round = f, gpbft.DECIDE_PHASE, 0
+			for _, oj := range a.justs {
+				j = oj
+				break
+			}
+		}
 	}
 	return a.build(mi, p, j)
 }
@@ -362,6 +377,21 @@ func (a *Adversary) foreignChain(inst uint64, otherBase bool) *gpbft.ECChain {
 		return nil
 	}
 	base := w.bases[inst]
+	if vs := a.values[inst]; !otherBase && len(vs) > 0 && a.rng.Intn(3) == 0 {
+		// head fork: a live value with only its head tipset replaced (every proper prefix of it is
+		// a prefix of an honest input, the chain itself is nobody's)
+		if v := vs[a.rng.Intn(len(vs))]; v != nil && v.Len() >= 2 && v.Base().Equal(base) {
+			v = v.Prefix(1 + a.rng.Intn(v.Len()-1)) // any prefix with at least one tipset above the base
+			tips := append([]*gpbft.TipSet{}, v.TipSets[1:v.Len()-1]...)
+			h := v.Head()
+			key := make([]byte, 32)
+			a.rng.Read(key)
+			tips = append(tips, &gpbft.TipSet{Epoch: h.Epoch, Key: key, PowerTable: h.PowerTable})
+			if c, err := gpbft.NewChain(base, tips...); err == nil {
+				return c
+			}
+		}
+	}
 	if otherBase {
 		base = &gpbft.TipSet{Epoch: base.Epoch, Key: w.randKey(), PowerTable: base.PowerTable}
 	}
